@@ -18,7 +18,19 @@
 //	        sizes, so that each boundary is crossed from each predecessor;
 //	saved   save-format (palette, data) pairs as vanilla writes them for palette sizes through
 //	        every width, loaded with New*WithData, compared with refpal's reading of the same
-//	        pair, then mutated further.
+//	        pair, then mutated further; the same pairs handed over in a palette slice with spare
+//	        capacity (capMenu) and grown through the next two boundaries;
+//	reader  every d x every reader device (readers.go: short counts, io.ByteReader,
+//	        (n>0, io.EOF)) x {never used, previously larger} destination;
+//	dest-size  every source state (quick: around the boundaries) x a destination used before at
+//	        ANOTHER size N (grown by Set | received by an earlier ReadFrom | built from data), then
+//	        the destination's old values are set again and the contents grow on;
+//	pair    two LIVE containers in one history (pair.go): all words over 12 operations from every
+//	        pair of start sizes, including reading one container's bytes into the other live one;
+//	        both are compared in full after every step.
+//
+// Every judged Set(i,v) is bracketed by an isolated Get(i) directly before and directly after,
+// every judged ReadFrom by a Get(i) on the destination before and the same Get(i) first thing after.
 //
 // x id orders {0,1,2,.. | registry max downwards and 15-bit ids} x placements.
 package main
@@ -221,7 +233,16 @@ type Case struct {
 	NilData bool   `json:"nil_data,omitempty"`     // saved, d == 1
 	From    int    `json:"judge_from,omitempty"`   // steps before this index are a replayed prefix
 
-	fam string // spine | sweep | macro | saved (evidence accounting only)
+	fam   string     // spine | sweep | macro | saved | ... (evidence accounting only)
+	batch *pairBatch // pair: the task stands for every extension of Steps (see pairTasks)
+}
+
+// weight is the number of histories the task stands for.
+func (c *Case) weight() int64 {
+	if c.batch != nil {
+		return int64(c.batch.size())
+	}
+	return 1
 }
 
 var (
@@ -947,15 +968,37 @@ func runSaved(cs *Case) {
 	}
 }
 
-func judge(cs *Case) {
+var (
+	deadlineAt time.Time
+	stopFlag   int32
+)
+
+// expired reports whether the walk's deadline has passed (never during a replay).
+func expired() bool {
+	if atomic.LoadInt32(&stopFlag) != 0 {
+		return true
+	}
+	if !deadlineAt.IsZero() && time.Now().After(deadlineAt) {
+		atomic.StoreInt32(&stopFlag, 1)
+		return true
+	}
+	return false
+}
+
+// judge executes the task and returns the number of histories it executed.
+func judge(cs *Case) int64 {
 	switch cs.Part {
 	case "saved":
 		runSaved(cs)
 	case "pair":
+		if cs.batch != nil {
+			return int64(runPairBatch(cs))
+		}
 		runPair(cs)
 	default:
 		runHistory(cs)
 	}
+	return 1
 }
 
 // capMenu: spare capacity of the palette slice given to New*WithData, relative to what the
@@ -1166,7 +1209,7 @@ func selftest() {
 
 func main() {
 	rep = engine.NewReport("C12")
-	rep.Rule = "spine (one new id at a time through every boundary, judged after every Set) + sweep (every d x every operation of the alphabet, transfers followed by every follow-up) + macro histories (all words of depth <= 5 over 7 macro operations from each start size) + save-format pairs for palette sizes through every width (x spare capacity of the palette slice) + reader devices (every d x 6 devices x 2 destinations) + destinations used before at another size (d x N x {grown, wired, built from data}) + pair histories (two live containers, all words of depth <= 3 over 12 operations from every pair of start sizes, both compared after every step) + isolated Get(i) directly before/after every judged Set(i) and ReadFrom; x {blocks,biomes} x 2 id orders x placements. distinct = distinct (configuration, step list) tuples; non-trivial = all (each compares all positions and decodes the wire form after every judged step)"
+	rep.Rule = "spine (one new id at a time through every boundary, judged after every Set) + sweep (every d x every operation of the alphabet, transfers followed by every follow-up) + macro histories (all words of depth <= 5 over 7 macro operations from each start size) + save-format pairs for palette sizes through every width (x spare capacity of the palette slice) + reader devices (every d x 6 devices x 2 destinations) + destinations used before at another size (d x N x {grown, wired, built from data}) + pair histories (two live containers, all words of depth 3 (thorough: 4) over 12 operations from every pair of start sizes, both compared in full after every step) + isolated Get(i) directly before/after every judged Set(i) and ReadFrom; x {blocks,biomes} x 2 id orders x placements. distinct = distinct (configuration, step list) tuples; non-trivial = all (each compares all positions and decodes the wire form after every judged step)"
 	initKinds(rep.Thorough())
 	selftest()
 	if rep.ReplayPath != "" {
@@ -1203,30 +1246,32 @@ func main() {
 		return 1
 	}
 	sort.SliceStable(tasks, func(i, j int) bool { return prio(&tasks[i]) < prio(&tasks[j]) })
-	deadline := time.Now().Add(50 * time.Second)
+	deadlineAt = time.Now().Add(50 * time.Second)
 	if rep.Thorough() {
-		deadline = time.Now().Add(13 * time.Minute)
+		deadlineAt = time.Now().Add(13 * time.Minute)
 	}
-	var stop int32
 	var skipped int64
 	engine.ParallelFor(len(tasks), func(_, i int) {
-		if i%16 == 0 && atomic.LoadInt32(&stop) == 0 && time.Now().After(deadline) {
-			atomic.StoreInt32(&stop, 1)
-		}
-		if atomic.LoadInt32(&stop) != 0 {
-			atomic.AddInt64(&skipped, 1)
+		w := tasks[i].weight()
+		if expired() {
+			atomic.AddInt64(&skipped, w)
 			return
 		}
-		judge(&tasks[i])
-		rep.Eval(1)
+		n := judge(&tasks[i]) // a batch stops at the deadline too
+		rep.Eval(n)
+		atomic.AddInt64(&skipped, w-n)
 	})
+	var total int64
+	for i := range tasks {
+		total += tasks[i].weight()
+	}
 	if skipped > 0 {
-		rep.Cap("deadline reached: %d of %d histories not executed (order: all biome histories; block states: spines, readers, destination sizes, saved pairs; sweep; pairs; macro)", skipped, len(tasks))
+		rep.Cap("deadline reached: %d of %d histories not executed (order: all biome histories; block states: spines, readers, destination sizes, saved pairs; sweep; pairs; macro)", skipped, total)
 	}
 	rep.Count("histories_abandoned_silently_because_a_replayed_(already_judged)_prefix_step_broke_the_model", abandoned)
 	var parts = map[string]int64{}
-	for _, t := range tasks {
-		parts[t.fam+"_histories"]++
+	for i := range tasks {
+		parts[tasks[i].fam+"_histories"] += tasks[i].weight()
 	}
 	for k, v := range parts {
 		rep.Count(k, v)
